@@ -936,8 +936,22 @@ def n4(ck: Check) -> None:
         if not saves or not restores:
             probs.append("the previous value is not saved/restored")
         else:
+            def infeasible_sides(w):
+                """the restore may sit under the same unchanged guard as the write (`if debug: set` ... `if debug: restore`):
+                the other side of that later test cannot be taken on a path that comes from the write"""
+                out = []
+                fw = {(text(t_), p_) for t_, p_, _b in fm.facts(w)}
+                for r_ in restores:
+                    for t_, p_, b_ in fm.facts(r_):
+                        names = {y.id for y in ast.walk(t_) if isinstance(y, ast.Name)}
+                        stable = all(len([z for z in own_walk(fm.f.node) if isinstance(z, ast.Name) and z.id == nm and isinstance(z.ctx, ast.Store)]) <= 1
+                                     for nm in names) and not any(isinstance(y, ast.Call) for y in ast.walk(t_))
+                        if (text(t_), p_) in fw and stable:
+                            tn_ = next(iter(fm.cfg.g.predecessors(b_.id)))
+                            out += [fm.cfg.nodes[s_] for s_ in fm.cfg.g.successors(tn_) if s_ != b_.id]
+                return out
             for w in sets:
-                if escapes(fm, w, restores, None, need_pre=False):
+                if escapes(fm, w, restores + infeasible_sides(w), None, need_pre=False):
                     probs.append(f"line {w.lineno}: a path returns without restoring {attr}")
             if not all(fm.cfg.dominates(saves[0], w) for w in sets):
                 probs.append("the value is overwritten before it is saved")
